@@ -62,7 +62,8 @@ def handle (op : String) (args : List String) : String :=
   | "opsspec", [dsl, xdsl, dump] =>
     -- content of an operation, given the ORIGINAL schema: the violated constraint families of the specification (all-state variant,
     -- no option), then `|`, then per route (rpc input, reply output, notification) what the model of `lyd_validate_op` says for the
-    -- source tree at hand (`OpFacts.current`): `V`, `I:<kind of the first error>`, or `B:<build error>`
+    -- source tree at hand (`OpFacts.current`): `V`, `I:<kind of the first error>`, or `B:<build error>`, then `|` and the violated
+    -- families of the schema itself
     withX dsl xdsl fun X =>
       match forestOfHex X.base dump with
       | some f =>
@@ -76,8 +77,10 @@ def handle (op : String) (args : List String) : String :=
             match (opsValidate OpFacts.current r X (canon Y.base (heightL f + 1) (freshL Y.base f))).errs with
             | [] => r.name ++ "=V"
             | e :: _ => r.name ++ "=I:" ++ e.kind.name
+        -- last: the violations of the schema itself (the same instance as datastore content), for the counters of the check
+        let k0 := violations X {} (canon X.base (heightL f + 1) (freshL X.base f))
         "ok " ++ toString ks.eraseDups.length ++ String.join (ks.eraseDups.map (" " ++ ·.name)) ++ " | " ++ route .input ++ " " ++ route .output
-          ++ " " ++ route .notif
+          ++ " " ++ route .notif ++ " | " ++ toString k0.eraseDups.length ++ String.join (k0.eraseDups.map (" " ++ ·.name))
       | none => "err BadTree"
   | _, _ => "err BadOp"
 
